@@ -14,7 +14,10 @@ def run_fmt(ctx, sections, procs, extra_args=None):
         d = os.path.join(ctx.scratch, "fmt%d" % i)
         os.makedirs(d, exist_ok=True)
         cmd = [harness_bin("fmt"), "--seed", str(ctx.seed * 1000 + i), "--tier", ctx.tier, "--out", d] + sections + (extra_args or [])
-        r = subprocess.run(cmd, stdout=subprocess.PIPE, stderr=subprocess.PIPE, timeout=3000)
+        try:
+            r = subprocess.run(cmd, stdout=subprocess.PIPE, stderr=subprocess.PIPE, timeout=400 if ctx.tier == "quick" else 3000)
+        except subprocess.TimeoutExpired:
+            return {"dir": d, "crash": "TIMEOUT: a call of the store (workload, flush, open or close) did not return in the single-threaded fmt harness"}
         if r.returncode != 0:
             msg = "exit %d: %s" % (r.returncode, r.stderr.decode(errors="replace")[-800:])
             img = os.path.join(d, "hang_image.feox")
